@@ -7,6 +7,8 @@ use crate::grammar::*;
 use std::collections::{BTreeSet, HashSet};
 
 pub(super) fn detect_cycles(ast: &Ast, diagnostics: &mut Diagnostics) {
+    detect_inheritance_cycles(ast, diagnostics);
+
     let mut cycle_detector = CycleDetector {
         type_being_checked: None,
         dependency_stack: Vec::new(),
@@ -26,6 +28,36 @@ pub(super) fn detect_cycles(ast: &Ast, diagnostics: &mut Diagnostics) {
         debug_assert!(cycle_detector.dependency_stack.is_empty());
         cycle_detector.type_being_checked = Some((candidate.module_scoped_identifier(), candidate));
         candidate.check_for_cycles(&mut cycle_detector)
+    }
+}
+
+/// Reports an error for every interface that inherits from itself (directly, or through its base interfaces).
+fn detect_inheritance_cycles(ast: &Ast, diagnostics: &mut Diagnostics) {
+    /// Searches the bases of `current` (depth first) for the interface named `target`, recording the path it takes.
+    fn find_path_to(current: &Interface, target: &str, visited: &mut HashSet<String>, path: &mut Vec<String>) -> bool {
+        for base in current.base_interfaces() {
+            let base_id = base.module_scoped_identifier();
+            path.push(base_id.clone());
+            if base_id == target || (visited.insert(base_id) && find_path_to(base, target, visited, path)) {
+                return true;
+            }
+            path.pop();
+        }
+        false
+    }
+
+    for node in ast.as_slice() {
+        let Node::Interface(interface_ptr) = node else { continue };
+        let interface = interface_ptr.borrow();
+        let type_id = interface.module_scoped_identifier();
+
+        let mut path = Vec::new();
+        if find_path_to(interface, &type_id, &mut HashSet::new(), &mut path) {
+            let cycle = type_id.clone() + " -> " + &path.join(" -> ");
+            Diagnostic::new(Error::InfiniteSizeCycle { type_id, cycle })
+                .set_span(interface.span())
+                .push_into(diagnostics);
+        }
     }
 }
 
